@@ -41,6 +41,47 @@ def setget(run, task):
                     exp={'out': exp_out, 'pout': exp_p})
 
 
+def set_wide(run, task):
+    """history set_stream_param -> refill4 (four blocks) -> get both parameters -> refill: the counter read back is value + 4, the stream
+    id and key are untouched, and the fifth block is the block a state created directly at value + 4 would emit"""
+    config, param, dr = task
+    mod = module(config, run)
+    args = [Buf('key', 32, sym=True, writable=False), Buf('nonce', 8, sym=True, writable=False), Sc('ctr0', 64), Sc('param', 32, param),
+            Sc('value', 64), Sc('drounds', 32, dr), Buf('out4', 256), Buf('out', 64), Buf('pout', 16)]
+    t0 = time.time()
+    res, ex = entry.run(mod, 'h_c15_set_refill4', args)
+    run.exec_s += time.time() - t0
+    run.note_functions(execu.demangle_hint(f) for f in ex.funcs_run)
+    key, nonce, ctr0, value = T.var('key', 256), T.var('nonce', 64), T.var('ctr0', 64), T.var('value', 64)
+    p0 = value if param == 0 else ctr0
+    p1 = value if param == 1 else nonce
+
+    def specf():
+        nxt = T.add(p0, T.const(4, 64))
+        return T.concat([nxt, p1] + [spec.block_djb(key, p1, T.add(p0, T.const(i, 64)), dr) for i in range(4)] + [spec.block_djb(key, p1, nxt, dr)])
+    for r in res:
+        name = 'set+refill4+get+refill/%s/param=%d/dr=%d/arm[%s]' % (config, param, dr, arm_name(r.pc))
+        if r.status != 'ret':
+            st, model = check.pc_feasible(r.pc)
+            ob = check.Obligation(name + '/no-fault')
+            ob.n_pairs = 1
+            ob.status = 'ok' if st == 'unsat' else st
+            ob.detail = r.status + ' ' + r.detail
+            run.add(ob)
+            if st == 'sat':
+                confirm(run, config, 'h_c15_set_refill4', args, model, 'setwide:fault', '%s %s' % (r.status, r.detail[:120]), kind='fault')
+            continue
+        if config.startswith('devchk'):
+            continue        # overflow-checked profile: panic reachability only (values are proved on the release IR)
+        got = T.concat([r.mem(r.named['pout']), r.mem(r.named['out4']), r.mem(r.named['out'])])
+        ob = run.equal_spec(name, got, specf, r.pc, impl_fn=lambda: (lambda r2: T.concat([r2.mem(r2.named['pout']), r2.mem(r2.named['out4']), r2.mem(r2.named['out'])]))(entry.rerun(ex, r)))
+        if ob.status == 'sat':
+            exp = specf()
+            confirm(run, config, 'h_c15_set_refill4', args, ob.model, 'setwide:mismatch:param%d' % param,
+                    'set_stream_param(%d), refill4, get, refill: position / following block differ from a directly constructed state (%s)' % (param, config),
+                    exp={'pout': T.extract(exp, 0, 128), 'out4': T.extract(exp, 128, 2048), 'out': T.extract(exp, 2176, 512)})
+
+
 def eqpred(run, task):
     config, = task
     mod = module(config, run)
@@ -104,6 +145,7 @@ def body(run, a):
         module(c, run)
     tasks = [(c, p, dr) for c in configs for p in (0, 1) for dr in ((0, 1, 10) if run.tier == 'quick' else range(11))]
     check.parallel(run, setget, tasks)
+    check.parallel(run, set_wide, [(c, p, dr) for c in configs for p in (0, 1) for dr in ((1, 10) if run.tier == 'quick' else (0, 1, 4, 6, 10))])
     check.parallel(run, eqpred, [(c,) for c in configs])
     canaries(run)
     run.bounds = {'param': '0 and 1 (param >= 2 is outside the documented domain: index panic)', 'values': 'all 64-bit values, all keys, stream ids, prior counters (symbolic)',
